@@ -300,6 +300,8 @@ def run(tier):
     from props import progexec
     progexec.check_accelerators(rep)        # every ACCELERATORS entry: one real trip round the loop == one fast-forwarded iteration
     progexec.check_ffwd_arith(rep)          # the real fast-forward statement of _read_port == `loops` such iterations, never past the edge
+    from props import fastloadvc
+    fastloadvc.check_fast_load(rep, 'C13')  # ROM fast loading: which bytes land where, registers on exit
     quick = tier == 'quick'
     n = 16 if quick else 300
     with Pool(common.NCPU) as p:
@@ -326,6 +328,14 @@ def replay(path):
         doc = json.load(f)
     print('replaying', doc.get('key'), doc.get('case'))
     case = doc.get('case') or {}
+    if 'block' in case and 'regs' in case:
+        from props import fastloadvc
+        d = fastloadvc.concrete_fast_load(case['regs'], case['block'])
+        print('real fast_load vs contract:', d)
+        if d:
+            print('VIOLATION property=C13 replay=%s' % path)
+            return 1
+        return 0
     if 'accelerator_fields' in case:
         from props import progexec
         d = progexec.concrete_ffwd(case['regs'], case['next_edge_t'], case['edge_index'], tuple(case['accelerator_fields']))
